@@ -236,8 +236,13 @@ def explore(ctx):
         lib = rng.choice(["ufoLib2", "defcon"])
         flatten = rng.random() < 0.5
         convert = rng.random() < 0.7
+        if rng.random() < 0.3:
+            # what fontTools.cu2qu.ufo.fonts_to_quadratic leaves behind (possibly stale): must not matter for a non-inplace compile
+            desc["lib"] = {"com.github.googlei18n.cu2qu.curve_type": rng.choice(["quadratic", "quadratic", "cubic", "mixed"])}
         case = {"font": jsonable(desc), "lib": lib, "flattenComponents": flatten, "convertCubics": convert}
         ctx.count()
+        if desc.get("lib"):
+            ctx.klass("cu2qu.curve_type lib key present")
         by = {g["name"]: g for g in desc["glyphs"]}
         if any(g["contours"] and g["components"] for g in desc["glyphs"]) or any(
                 by[b]["components"] or t[0] * t[3] - t[1] * t[2] < 0 for g in desc["glyphs"] for b, t in g["components"]):
